@@ -26,7 +26,42 @@ def _check_status_calls(fn):
 
 
 def _listed(call):
-    return const_names(call.args[1]) if len(call.args) > 1 else set()
+    """Status names accepted by a `_check_status(x, <list>)` call.  The list may be written at
+    the call or bound once to a local name / module constant (hoisted out of a loop); anything
+    else is outside the rule's vocabulary."""
+    if len(call.args) < 2:
+        for k in call.keywords:
+            if k.arg is not None and len(call.args) == 1:
+                return _status_list(call, k.value)
+        return set()
+    return _status_list(call, call.args[1])
+
+
+def _status_list(call, expr, depth=0):
+    if isinstance(expr, (ast.List, ast.Tuple, ast.Set)):
+        return const_names(expr)
+    if isinstance(expr, ast.BinOp) and isinstance(expr.op, ast.Add) and depth < 4:
+        return _status_list(call, expr.left, depth + 1) | _status_list(call, expr.right, depth + 1)
+    if isinstance(expr, ast.Name) and depth < 4:
+        fn = call
+        while fn is not None and not isinstance(fn, (ast.FunctionDef, ast.AsyncFunctionDef)):
+            fn = getattr(fn, "_parent", None)
+        scope = fn
+        binds = []
+        while scope is not None:
+            for n in (fn_walk(scope) if isinstance(scope, (ast.FunctionDef, ast.AsyncFunctionDef)) else scope.body):
+                if isinstance(n, ast.Assign) and any(isinstance(t, ast.Name) and t.id == expr.id for t in n.targets):
+                    binds.append(n.value)
+                elif isinstance(n, (ast.AugAssign, ast.AnnAssign)) and isinstance(n.target, ast.Name) and n.target.id == expr.id:
+                    binds.append(None)
+            if binds:
+                break
+            scope = getattr(scope, "_parent", None)
+            while scope is not None and not isinstance(scope, (ast.FunctionDef, ast.AsyncFunctionDef, ast.Module)):
+                scope = getattr(scope, "_parent", None)
+        if len(binds) == 1 and binds[0] is not None:
+            return _status_list(call, binds[0], depth + 1)
+    raise AnalysisError(f"accepted-status list `{U(expr)}` of _check_status (line {call.lineno}) is not a literal or a name bound once to one")
 
 
 def _classwide(repo, cls, name, self_call=False):
@@ -195,21 +230,7 @@ def r06_life(repo, sink):
         sink.check(bool(pre), "R06", "status-checked-before:finalize", fin,
                    ok=f"status is checked before finalize {sorted(_listed(pre[0])) if pre else ''}",
                    bad="component status is not checked before finalize()")
-    # adapters are held in a set (finalized once each) and collected in both directions
-    init_sets = [n for n in fn_walk(init.node) if isinstance(n, ast.Assign) and any(self_attr(t) == "_adapters" for t in n.targets)]
-    is_set = bool(init_sets) and isinstance(init_sets[0].value, ast.Call) and call_name(init_sets[0].value) == "set"
-    sink.check(is_set, "R06", "adapters-held-in-set", init, ok="_adapters is a set: each adapter finalized once",
-               bad="_adapters is not a set: an adapter reached from both sides would be finalized twice")
-    ca = repo.resolve(comp, "_collect_adapters")
-    txt = U(ca.node) if ca else ""
-    sink.check("inputs" in txt and "outputs" in txt, "R06", "collect-both-directions", ca or comp.node,
-               ok="_collect_adapters walks inputs (upstream) and outputs (downstream)",
-               bad="_collect_adapters does not walk both directions")
-    for fname, attr, rec in (("_collect_adapters_input", "source", True), ("_collect_adapters_output", "targets", True)):
-        hf = repo.func("src/finam/schedule.py", fname)
-        t = U(hf.node)
-        sink.check(f".{attr}" in t and f"{fname}(" in t.split("\n", 1)[1] and ".add(" in t, "R06", f"collect-recursive:{fname}", hf,
-                   ok=f"{fname} adds adapters and recurses along .{attr}", bad=f"{fname} does not add every adapter along .{attr}")
+    # collection of adapters (set semantics, both directions, recursion): decided by the abstract run above (finalize-once)
     # who-may-call: life-cycle methods of components are driven only by the Composition
     for m in ("initialize", "validate", "finalize"):
         foreign = []
@@ -261,10 +282,14 @@ def _finalize_once(repo, sink, comp_cls, fin):
     t.link(o, shared + ["NextTime"], c)
     o2 = t.output(a, "out2")
     t.link(o2, ["DelayFixed", "Scale"], b, "in2")
+    # a chain that ends in no input: reachable only by the downstream walk
+    t.link(t.output(b, "dangling"), ["Scale", "Scale"], None)
     adapters = {e.label for (_o, elems, _c, _i) in t.links for e in elems}
     me = Obj(cls=comp_cls, label="composition")
-    me.fields.update(_components=list(t.comps.values()), _adapters=set(), logger=Logger(label="logger"))
     it = _FinInterp(repo)
+    from ..absbase import seed_from_init
+    seed_from_init(it, comp_cls, me, {"components": list(t.comps.values())})
+    me.fields.update(logger=Logger(label="logger"))
     col = repo.resolve(comp_cls, "_collect_adapters")
     try:
         it.run(col, [], self_obj=me)
